@@ -197,6 +197,28 @@ build_hand_gset(void)
         }
 }
 
+/* loop grammars over many short words: with utterances of a few dozen frames the lattices hold thousands of paths,
+ * enough to fill the N-best search's agenda */
+static const char *const LOOPS[] = {
+    "n=1 s=0 f=0 arcs=0>0:a:1,0>0:i:1,0>0:oh:1,0>0:go:1,0>0:no:1,0>0:ago:1",
+    "n=2 s=0 f=1 arcs=0>1:a:1,0>1:i:1,0>1:oh:1,0>1:go:1,0>1:no:1,1>0:eps:1,1>1:at:1",
+};
+static char LOOPBUF[sizeof LOOPS / sizeof *LOOPS][160];
+static void
+build_loop_gset(void)
+{
+    int i, n = (int)(sizeof LOOPS / sizeof *LOOPS);
+    GSET = malloc(sizeof(gspec_t) * n);
+    NG = 0;
+    for (i = 0; i < n; i++)
+        if (gs_parse(LOOPS[i], &GSET[NG], LOOPBUF[i], sizeof LOOPBUF[i]) == 0)
+            NG++;
+        else {
+            fprintf(stderr, "bad loop grammar %d\n", i);
+            exit(2);
+        }
+}
+
 static void
 build_special_gset(void)
 {
@@ -937,6 +959,8 @@ main(int argc, char **argv)
         build_enum_gset(ns, na);
     } else if (strcmp(gset, "special") == 0)
         build_special_gset();
+    else if (strcmp(gset, "loop") == 0)
+        build_loop_gset();
     else
         build_hand_gset();
     total = (long long)NG * NR * NUTT * NPAT;
@@ -950,6 +974,7 @@ main(int argc, char **argv)
     mc_counter_names[5] = "json_strings";
     mc_counter_names[6] = "nbest_hyps";
     mc_counter_names[7] = "reference_cells";
+    mc_counter_names[8] = "lattices_too_dense_to_list_checked_by_dynamic_program";
     /* shard by grammar so that a child keeps its grammar for many cases */
     {
         long long per_g = (long long)NR * NUTT * NPAT;
